@@ -27,10 +27,11 @@ META = {
         "C01.10 every constructor that receives a config (PooledJSONRPCServer, CGI handler, the three transports, ServerProxy's default "
         "transports) hands that very object to the package constructors it calls, so the class-translation switch of the caller's Config "
         "is the one in force for every server class and transport, and every normal path through the constructor of a server, CGI handler, "
-        "transport, Unix connection or TransportError runs the constructor of each base that sets up state (frozen table BASE_INITS)."),
+        "transport, Unix connection or TransportError runs the constructor of each base that sets up state (frozen table BASE_INITS).; C01.11 (imported C05.2) the looked-up callable is called exactly where the lookup is known to have succeeded (`func is not None`, an identity test: a registered callable object that is falsy is still invoked) C01.12 (imported from C09.2 / C10.7) on a pooled server every accepted request is executed and marked done exactly once by a worker, and an idle worker only retires while the remaining idle workers still outnumber the queued requests (otherwise a queued request is left without a worker and never answered)."),
     "does_not_decide": "equality of values after JSON normalisation, Unicode/float fidelity of the backend, socket "
                        "behaviour of the three transports, exactly-once across retries inside xmlrpc.client.",
-    "rules": {"C01.1": "CFG exploration + provenance", "C01.2": "provenance of arguments", "C01.3": "exploration with a call counter",
+    "rules": {"C01.12": "imported C09.2, C10.7 (worker CFG exploration)",
+              "C01.11": "imported C05.2", "C01.1": "CFG exploration + provenance", "C01.2": "provenance of arguments", "C01.3": "exploration with a call counter",
               "C01.4": "provenance + dominance", "C01.5": "dominance / post-dominance on normal paths", "C01.6": "provenance of the join operand", "C01.7": "shape interpreter + provenance", "C01.8": "provenance", "C01.9": "imported C17.3",
               "C01.10": "provenance of the config argument at constructor-to-constructor call sites"},
     "assumptions": ["xmlrpc.client._Method stores its two constructor arguments as __send and __name"],
@@ -589,3 +590,14 @@ def check(ck):
     common.check_config_forwarding(ck, "C01.10")
     common.check_base_constructors(ck, "C01.10")
     ck.floor("C01.10", 20)
+
+    # ---- C01.11 the found callable is invoked (shared with C05.2) -----------------------------------------------------
+    from rules import c05 as _c05
+    common.import_rules(ck, _c05, {"C05.2": "C01.11"})
+    ck.floor("C01.11", 2)
+
+    # ---- C01.12 the request pool executes every accepted request (shared with C09.2 / C10.7) -----------------------------
+    from rules import c09 as _c09p, c10 as _c10p, common as _cmp
+    _cmp.import_rules(ck, _c09p, {"C09.2": "C01.12"})
+    _cmp.import_rules(ck, _c10p, {"C10.7": "C01.12"})
+    ck.floor("C01.12", 6)
